@@ -245,7 +245,8 @@ func (w *Watcher) fetchEvents(ctx context.Context, logger *zap.Logger, client *C
 				unconfirmedEvents = append(unconfirmedEvents, unconfirmed...)
 
 				fromIndex = events.NextStart
-				if events.NextStart == *count {
+				// events may have been appended since the count was polled: NextStart can be past it
+				if events.NextStart >= *count {
 					break
 				}
 			}
